@@ -95,6 +95,22 @@ func ToCode(i int) Code { return Code(i) }
 func init() {}
 `,
 		"sibling/doc.go": "package sibling\n",
+		// two packages whose import paths end in the same element (both imported blank by one input)
+		"app/audit/hooks/hooks.go": `package hooks
+
+import "fsw/app/model"
+
+func Stamp(dst *model.UserRow, src *model.User) { dst.Rank = 1 }
+
+func Label(s string) string { return "audit:" + s }
+`,
+		"app/storage/hooks/hooks.go": `package hooks
+
+import "fsw/app/model"
+
+// this package offers neither Stamp nor Label: a run that binds the name "hooks" to it fails
+func Archive(dst *model.UserRow, src *model.User) { dst.Rank = 2 }
+`,
 	}
 }
 
@@ -216,6 +232,35 @@ type C interface {
 	// :stringer
 	// :map Extra Name
 	Row2(*model.User) *model.UserRow
+}
+`))
+	ins = append(ins, mk("blankdup", "conv", `//go:build convergen
+
+package conv
+
+import (
+	_ "fsw/app/audit/hooks"
+	"fsw/app/model"
+	_ "fsw/app/other"
+	_ "fsw/app/storage/hooks"
+)
+
+// :convergen
+type Rows interface {
+	// :stringer
+	// :conv hooks.Label Name
+	// :postprocess hooks.Stamp
+	ToRow(*model.User) *model.UserRow
+	// :stringer
+	// :skip Rank
+	// :preprocess hooks.Stamp
+	ToRow2(*model.User) *model.UserRow
+}
+
+type Convergen interface {
+	// :typecast
+	// :skip Label
+	Pets(*Pet) *PetDTO
 }
 `))
 	// the same as "simple" under a long package name (truncation points inside the package identifier)
